@@ -12,6 +12,8 @@
 //!   trainset kind(0 = rt, 1 = ims) delta:f32 [np seq…] [n (pep label q:f32 charge obs:f32 mask)…]
 //!       fit twice: on obs, and on obs + delta for the PSMs with mask = 1
 //!       -> fitA fitB [n (rA:f64 rB:f64)…]     (raw predictions of every PSM under both fits; 0 if no fit)
+//!   alignbig seed n a b8 half tmax        (2 files x n peptides; the table is GENERATED, see `big_k`)
+//!       -> 2 (max_rt slope intercept)x2  32 aligned_rt:f32 (of PSMs idx_j = j*(2n-1)/31)…  n_nonfinite_aligned
 //!   predpools kind(0 = rt, 1 = ims) [np seq…] [n (pep label q:f32 charge obs:f32)…]
 //!       -> 4 then, for rayon pools of 1, 2, 4, 16 threads (ThreadPoolBuilder::install):
 //!          fit(0/1) r2:f64 [n (r:f64 predicted:f32 delta:f32)…]     (r2, r = 0 when the fit failed)
@@ -30,7 +32,7 @@ use sage_core::ml::retention_model::{self, RetentionModel};
 use sage_core::peptide::Peptide;
 use sage_core::scoring::Feature;
 
-pub const OPS: &[&str] = &["align", "rtpredict", "imspredict", "rtpredictq", "imspredictq", "trainset", "predpools", "chainpools"];
+pub const OPS: &[&str] = &["align", "rtpredict", "imspredict", "rtpredictq", "imspredictq", "trainset", "predpools", "chainpools", "alignbig"];
 pub const INFO: Info = Info {
     rule: "align: multi-file PSM sets, 1..8 files, up to 40 peptides (quick) / 100 (thorough); each file is an \
            affine distortion a*t+b of a common profile t (exactly representable distortions of a dyadic profile, \
@@ -50,7 +52,12 @@ pub const INFO: Info = Info {
            non-trivial = the model was fitted. predpools: the same kind of \
            database with 200..3000 PSMs (large enough for rayon to split the par_iter pipelines), RT and IM, run \
            under pools of 1/2/4/16 threads; chainpools: alignment + RT prediction of a multi-file set under the \
-           same pools (observational)",
+           same pools (observational). alignbig: 2 files x n peptides (n = 70,000 / 120,000 and 65,535..65,537, \
+           65,600; thorough also 131,072 and 200,000) whose PSM table both sides generate from the request's \
+           integers (never listed): file 0 has every peptide confident at rt = k_p/8 (k_p a hash of p and the \
+           seed, k_0 = the maximum), file 1 is the exact affine image a*rt + b with all / every second peptide \
+           confident; a = 2, b = 0 makes every anchor lie on y = x in both files (diagonal clause + identity \
+           equivariance although the peptide sets differ)",
     serial: false,
 };
 
@@ -969,12 +976,99 @@ fn exec_chainpools(t: &mut Toks) -> Option<String> {
     Some(o.finish())
 }
 
+
+// ---------------------------------------------------------------------------------------------
+// alignbig: large anchor tables generated from the request's integers on both sides
+
+/// numerator of peptide p's profile time in eighths of a minute: k_0 is the maximum 8*tmax, the others
+/// lie in [8, 8*tmax - 1]. The Lean driver (`bigK`) uses the same formula on naturals (no overflow:
+/// p < 2^20, seed < 2^31).
+fn big_k(seed: u64, tmax: u64, p: u64) -> u64 {
+    if p == 0 {
+        8 * tmax
+    } else {
+        8 + (p * 2654435761 + seed * 40503) % (8 * tmax - 8)
+    }
+}
+
+fn alignbig_request(seed: u64, n: usize, a: u64, b8: u64, half: bool, tmax: u64) -> String {
+    let mut o = Out::new();
+    o.raw("alignbig").n(seed).n(n).n(a).n(b8).b(half).n(tmax);
+    o.finish()
+}
+
+fn gen_alignbig(rng: &mut Rng, tier: Tier, emit: &mut dyn FnMut(Case)) {
+    let seed = |rng: &mut Rng| rng.below(1 << 30) as u64;
+    // quick: the two sizes of the report plus the first size above 2^16
+    let s = seed(rng);
+    emit(Case::new(alignbig_request(s, 70_000, 2, 0, true, 120)).tag("big-70k").tag("big-diagonal"));
+    let s = seed(rng);
+    emit(Case::new(alignbig_request(s, 65_537, 2, 0, true, 120)).tag("big-around-65536").tag("big-diagonal"));
+    let s = seed(rng);
+    emit(Case::new(alignbig_request(s, 120_000, 2, 24, true, 90)).tag("big-120k"));
+    if tier == Tier::Thorough {
+        for &n in &[65_535usize, 65_536, 65_537, 65_600, 70_000, 120_000, 131_072, 131_073, 200_000] {
+            for &(a, b8, half) in &[(2u64, 0u64, true), (2, 0, false), (3, 20, true), (1, 56, true), (2, 24, false)] {
+                let s = seed(rng);
+                let tmax = *rng.pick(&[60u64, 90, 120, 240]);
+                let mut c = Case::new(alignbig_request(s, n, a, b8, half, tmax))
+                    .tag(if n >= 65_535 && n <= 65_600 { "big-around-65536" } else if n <= 70_000 { "big-70k" } else { "big-120k+" });
+                if a == 2 && b8 == 0 {
+                    c = c.tag("big-diagonal");
+                }
+                emit(c);
+            }
+        }
+    }
+}
+
+fn exec_alignbig(t: &mut Toks) -> Option<String> {
+    let seed = t.usize()? as u64;
+    let n = t.usize()?;
+    let a = t.usize()? as u64;
+    let b8 = t.usize()? as u64;
+    let half = t.bool()?;
+    let tmax = t.usize()? as u64;
+    if !t.done() || n == 0 || n > (1 << 20) || seed >= (1 << 31) || tmax < 2 || tmax > 4096 || a == 0 || a > 8 || b8 > 4096 {
+        return None;
+    }
+    let mut feats: Vec<Feature> = Vec::with_capacity(2 * n);
+    for file in 0..2usize {
+        for p in 0..n {
+            let k = big_k(seed, tmax, p as u64);
+            let mut x = super::util::blank_feature();
+            x.file_id = file;
+            x.peptide_idx = PeptideIx(p as u32);
+            x.label = 1;
+            x.rt = if file == 0 { k as f32 / 8.0 } else { (a * k + b8) as f32 / 8.0 };
+            x.spectrum_q = if file == 0 || !half || p % 2 == 0 { Q_CONF } else { 0.5 };
+            x.charge = 1 + ((p + file) % 4) as u8;
+            x.psm_id = file * n + p;
+            x.aligned_rt = f32::NAN;
+            feats.push(x);
+        }
+    }
+    let al = global_alignment(&mut feats, 2);
+    let mut o = Out::new();
+    o.n(al.len());
+    for a in &al {
+        o.f32(a.max_rt).f32(a.slope).f32(a.intercept);
+    }
+    o.n(32);
+    for j in 0..32usize {
+        o.f32(feats[j * (2 * n - 1) / 31].aligned_rt);
+    }
+    o.n(feats.iter().filter(|f| !f.aligned_rt.is_finite()).count());
+    Some(o.finish())
+}
+
 // ---------------------------------------------------------------------------------------------
 
 pub fn gen(rng: &mut Rng, tier: Tier, emit: &mut dyn FnMut(Case)) {
     gen_align(rng, tier, emit);
     gen_predict(rng, tier, emit);
     gen_pools(rng, tier, emit);
+    gen_alignbig(rng, tier, emit);
 }
 
 pub fn exec(op: &str, t: &mut Toks) -> Option<String> {
@@ -984,6 +1078,7 @@ pub fn exec(op: &str, t: &mut Toks) -> Option<String> {
         "trainset" => exec_trainset(t),
         "predpools" => exec_predpools(t),
         "chainpools" => exec_chainpools(t),
+        "alignbig" => exec_alignbig(t),
         _ => None,
     }
 }
